@@ -78,7 +78,8 @@ def check_solutions(xs, ys, ts, res, ctx):
             # completeness for the unambiguous case: every transversal crossing is reported
             for i in range(n - 1):
                 if (ys[i] - t) * (ys[i + 1] - t) < 0:
-                    require(any(xs[i] <= z <= xs[i + 1] for z in sol.tolist()), "pl:crossing-missed",
+                    slack = 8 * float(np.spacing(max(abs(xs[i]), abs(xs[i + 1]), 1e-300)))
+                    require(any(xs[i] - slack <= z <= xs[i + 1] + slack for z in sol.tolist()), "pl:crossing-missed",
                             lambda: f"{ctx}: target {t!r}: no solution reported in [{xs[i]!r}, {xs[i + 1]!r}] "
                                     f"where y goes {ys[i]!r} -> {ys[i + 1]!r}; got {sol.tolist()}")
             d = np.diff(sol)
@@ -228,7 +229,7 @@ PROP = Prop(
           "the same solution oracle; fewer than 2 distinct values -> ValueError. Non-trivial = a "
           "target with >=2 solutions, a touch (t = min y or max y) or the closest-point fallback."),
     clauses=[
-        Clause("invert_pl", check_pl, strategy=_pl_cases(), quick=1500, thorough=8000, quick_shards=3,
+        Clause("invert_pl", check_pl, strategy=_pl_cases(), quick=1500, thorough=8000, quick_shards=3, fuzz=40000,
                min_nontrivial=300, doc="solutions of the interpolant, ordering, fallback"),
         Clause("threshold_at_metric", check_tam, strategy=_tam_cases(), quick=400, thorough=2000,
                quick_shards=3, min_nontrivial=100, doc="= inversion on the documented evaluation points"),
